@@ -1,4 +1,5 @@
 import Dawn.Proofs.LoaderDeadlock
+import Dawn.Proofs.LoaderProgress
 /-!
 # C06 — module loading is once-only, terminating and cycle-safe
 
@@ -58,6 +59,65 @@ theorem C06_unfetchable_counterexample :
   | some s =>
     simp [hr] at h
     exact ⟨s, steps_of_run hr, h.1.1.1.1.1, h.1.1.1.1.2, h.1.1.1.2, h.1.1.2, h.1.2, h.2⟩
+
+/-! ## regression witnesses for the condition variable -/
+
+/-- three packages (0, 1, 2) load the same helper 3 -/
+def threeOnHelper : Project :=
+  { loads := fun m => match m with | 0 => [3] | 1 => [3] | 2 => [3] | _ => [], roots := [0, 1, 2] }
+
+/-- goroutine 0 starts executing the helper; goroutines 1 and 2 find it, walk, and go to sleep on its condition
+variable; goroutine 0 finishes the helper; everybody who can runs to the end -/
+def threeOnHelperSchedule : List Tid :=
+  [0, 0, 0, 0, 0, 0, 0, 1, 1, 1, 1, 1, 1, 1, 1, 1, 2, 2, 2, 2, 2, 2, 2, 2, 2, 0, 0, 0, 0, 0, 0, 1, 1, 1, 1, 1]
+
+/-- `Signal` instead of `Broadcast` in `done` (regression witness): only the head of the notify list is woken; the
+second sleeper stays on the list of a module that is loaded, and `Load` hangs. -/
+theorem C06_signal_counterexample :
+    ∃ s, Reachable .signalDone threeOnHelper s ∧ stuck .signalDone threeOnHelper s = true ∧
+      unfinished threeOnHelper s = true ∧ s.pc 2 = .sleep 3 ∧ s.asleep 3 = [2] ∧ s.loaded 3 = true := by
+  have h : (run .signalDone threeOnHelper (init threeOnHelper) threeOnHelperSchedule).any (fun s =>
+      stuck .signalDone threeOnHelper s && unfinished threeOnHelper s && decide (s.pc 2 = .sleep 3) &&
+      decide (s.asleep 3 = [2]) && s.loaded 3) = true := by decide
+  cases hr : run .signalDone threeOnHelper (init threeOnHelper) threeOnHelperSchedule with
+  | none => simp [hr] at h
+  | some s =>
+    simp [hr] at h
+    exact ⟨s, steps_of_run hr, h.1.1.1.1, h.1.1.1.2, h.1.1.2, h.1.2, h.2⟩
+
+/-- the same schedule under the real code (`Broadcast`): everybody returns -/
+example : ∃ s, Reachable .fixed threeOnHelper s ∧ Terminal threeOnHelper s := by
+  have h : (run .fixed threeOnHelper (init threeOnHelper)
+      (threeOnHelperSchedule ++ [2, 2, 2, 2, 2])).any (fun s => !unfinished threeOnHelper s) = true := by decide
+  cases hr : run .fixed threeOnHelper (init threeOnHelper) (threeOnHelperSchedule ++ [2, 2, 2, 2, 2]) with
+  | none => simp [hr] at h
+  | some s =>
+    simp only [hr, Option.any_some, Bool.not_eq_eq_eq_not, Bool.not_true] at h
+    refine ⟨s, steps_of_run hr, fun t ht => ?_⟩
+    simp only [unfinished, List.any_eq_false, List.mem_range, bne_iff_ne, ne_eq, Decidable.not_not] at h
+    exact h t ht
+
+/-- two packages (0, 1) load the same helper 2 -/
+def twoOnHelper : Project :=
+  { loads := fun m => match m with | 0 => [2] | 1 => [2] | _ => [], roots := [0, 1] }
+
+/-- goroutine 1 tests `!m.loaded` (true) without the mutex; goroutine 0 finishes the helper and broadcasts to an empty
+list; goroutine 1 then locks and calls `Wait` -/
+def twoOnHelperSchedule : List Tid := [0, 0, 0, 0, 0, 0, 0, 1, 1, 1, 1, 1, 1, 1, 1, 1, 0, 0, 0, 0, 0, 0, 1]
+
+/-- unlocked `if !m.loaded { Lock; Wait }` instead of `Lock; for !m.loaded { Wait }` (regression witness): the
+wake-up that happens between the test and the `Wait` is lost; the goroutine sleeps on a loaded module for ever. -/
+theorem C06_lost_wakeup_counterexample :
+    ∃ s, Reachable .unlockedCheck twoOnHelper s ∧ stuck .unlockedCheck twoOnHelper s = true ∧
+      unfinished twoOnHelper s = true ∧ s.pc 1 = .sleep 2 ∧ s.asleep 2 = [1] ∧ s.loaded 2 = true := by
+  have h : (run .unlockedCheck twoOnHelper (init twoOnHelper) twoOnHelperSchedule).any (fun s =>
+      stuck .unlockedCheck twoOnHelper s && unfinished twoOnHelper s && decide (s.pc 1 = .sleep 2) &&
+      decide (s.asleep 2 = [1]) && s.loaded 2) = true := by decide
+  cases hr : run .unlockedCheck twoOnHelper (init twoOnHelper) twoOnHelperSchedule with
+  | none => simp [hr] at h
+  | some s =>
+    simp [hr] at h
+    exact ⟨s, steps_of_run hr, h.1.1.1.1, h.1.1.1.2, h.1.1.2, h.1.2, h.2⟩
 
 /-! ## the repaired loader -/
 
@@ -213,12 +273,93 @@ theorem C06_deadlock_free {P : Project} {s : State} (h : Reachable .fixed P s) (
   obtain ⟨t0, ht0⟩ := this
   exact no_stuck h hstuck t0 ht0
 
-/-- the blocked states of the fixed loader are exactly the condition waits on unfinished modules -/
+/-- C06, no lost wake-up: the notify list of a module's condition variable holds only goroutines asleep on that module
+while it is unfinished, and a goroutine asleep on a finished module has been taken off the list (so it can run): `done`
+sets `loaded` and then broadcasts to everybody on the list, `wait` tests `!m.loaded` and joins the list in one critical
+section and re-tests after every wake-up. -/
+theorem C06_no_lost_wakeup {P : Project} {s : State} (h : Reachable .fixed P s) :
+    (∀ d t, t ∈ s.asleep d → s.pc t = .sleep d ∧ s.loaded d = false) ∧
+    (∀ t d, s.pc t = .sleep d → s.loaded d = true → t ∉ s.asleep d ∧ ∃ s', next .fixed P s t = some s') := by
+  have invA := invA_reachable h
+  have lf := lockFree_reachable h
+  refine ⟨invA.listed, fun t d hpc hl => ?_⟩
+  have hnot : t ∉ s.asleep d := fun hin => by
+    have := (invA.listed d t hin).2; rw [hl] at this; cases this
+  refine ⟨hnot, ?_⟩
+  simp [next, hpc, hnot, lf.1, hl]
+
+/-- the blocked states of the fixed loader are exactly the condition waits — still on the notify list — on
+unfinished modules -/
 theorem C06_blocked_only_in_wait {P : Project} {s : State} (h : Reachable .fixed P s) {t : Tid}
     (hn : next .fixed P s t = none) : s.pc t = .finished ∨ ∃ d, s.pc t = .sleep d ∧ s.loaded d = false :=
-  stuck_thread (lockFree_reachable h) (inv1_reachable h) hn
+  stuck_thread (lockFree_reachable h) (inv1_reachable h) (invA_reachable h) hn
+
+/-! ### termination
+
+`C06_deadlock_free` says some goroutine can always move; the three theorems below say that moves cannot go on for ever,
+except for one kind: `mu P N` is a natural-number measure that every step other than a chain-walk read strictly decreases
+(and a chain-walk read leaves unchanged); a chain walk that no other goroutine disturbs ends within `N` reads unless the
+`loading` fields contain a cycle; and such a cycle is never stable — the goroutine that published last on it is enabled
+and is between publishing and un-publishing its pointer, its own walk leads back to itself and ends with the
+cyclic-dependency verdict, after which it clears the pointer. So under weak fairness of the Go scheduler (every
+continuously enabled goroutine eventually runs) every execution of `Load` is finite: the only way not to decrease `mu`
+for ever is a by-standing walk spinning round a cycle whose detector is never scheduled. The fairness step itself is not
+formalised (DESIGN.md section 4). -/
+
+/-- C06, progress: every step of every goroutine other than a chain-walk read (`loading = loading.getLoading()`)
+strictly decreases the measure `mu P N` — for every project whose reachable modules are below `N`. -/
+theorem C06_progress {P : Project} {N : Nat} (hb : Bounded P N) {s s' : State} {t : Tid} (h : Reachable .fixed P s)
+    (hn : next .fixed P s t = some s') (hw : ¬ isWalkRead s t) : mu P N s' < mu P N s :=
+  progress_fstep hb (inv1_reachable h) (inv4_reachable h) (invA_reachable h)
+    (fstep_of_next (lockFree_reachable h) hn) hw
+
+/-- a chain-walk read leaves the measure as it is -/
+theorem C06_walk_read_keeps_measure {P : Project} {N : Nat} {s s' : State} {t : Tid} (h : Reachable .fixed P s)
+    (hn : next .fixed P s t = some s') (hw : isWalkRead s t) : mu P N s' = mu P N s := by
+  obtain ⟨d, c, hpc, htop⟩ := hw
+  have st := fstep_of_next (lockFree_reachable h) hn
+  have ht := fstep_tid (inv1_reachable h) st
+  have hm := (lockFree_reachable h).1
+  simp only [next, hpc, htop, ↓reduceIte, hm, Option.isSome_none, Bool.false_eq_true, Option.some.injEq] at hn
+  subst hn
+  exact walk_read_mu ht hpc
+
+/-- C06, a quiescent walk is short: `k` consecutive chain-walk reads of one goroutine, with no step of any other goroutine
+in between, are at most `N` — unless the `loading` fields contain a cycle (the fairness case, `C06_cycle_detector`). -/
+theorem C06_walk_bounded_when_quiescent {P : Project} {N : Nat} (hb : Bounded P N) {s s' : State} {t : Tid} {k : Nat}
+    (h : Reachable .fixed P s) (hk : SoloReads t s k s') : k ≤ N ∨ PtrCycle s :=
+  walk_bounded hb h hk
+
+/-- C06, a cycle of `loading` fields is being detected: the goroutine whose top frame published last on the cycle is
+entering `wait`, on its chain walk, or about to clear its pointer — never in the condition wait — and can take a step. -/
+theorem C06_cycle_detector {P : Project} {s : State} (h : Reachable .fixed P s) (hc : PtrCycle s) :
+    ∃ u f rest d, s.stack u = f :: rest ∧ s.loading f.mod = some d ∧
+      (s.pc u = .enter d ∨ (∃ cur, s.pc u = .walk d cur) ∨ ∃ r, s.pc u = .unset r) ∧
+      ∃ s', next .fixed P s u = some s' :=
+  cycle_detector h hc
 
 /-! ## Non-vacuity -/
+
+theorem sharedHelper_bounded : Bounded sharedHelper 4 := by
+  have hp : ∀ a b, Path sharedHelper a b → b < 4 := by
+    intro a b p
+    induction p with
+    | @edge a b e =>
+      match a with
+      | 0 => simp [sharedHelper] at e; subst e; decide
+      | 1 => simp [sharedHelper] at e; subst e; decide
+      | 2 => simp [sharedHelper] at e; subst e; decide
+      | n + 3 => simp [sharedHelper] at e
+    | cons _ _ ih => exact ih
+  intro m ⟨r, hr, h⟩
+  simp only [sharedHelper, List.mem_cons, List.not_mem_nil, or_false] at hr
+  rcases h with rfl | h
+  · rcases hr with rfl | rfl <;> decide
+  · exact hp r m h
+
+/-- the measure is a number, and the steps of the D4 schedule decrease it: 109 at the start -/
+example : mu sharedHelper 4 (init sharedHelper) = 109 := by decide
+
 
 theorem acyclic_of_rank {P : Project} (rank : Mod → Nat) (h : ∀ a b, b ∈ P.loads a → rank b < rank a) : Acyclic P := by
   intro m _ hp
@@ -260,6 +401,17 @@ example : ∃ s, Reachable .fixed sharedHelper s ∧ Terminal sharedHelper s ∧
     simp only [unfinished, List.any_eq_false, List.mem_range, bne_iff_ne, ne_eq, Decidable.not_not] at this
     exact this t ht
 
+/-- chain-walk reads exist: in the D4 situation goroutine 1 (waiter `1`) stands on `3 = h.loading` and reads on -/
+example : ∃ s, Reachable .fixed sharedHelper s ∧ isWalkRead s 1 ∧ SoloReads 1 s 1 (setPc s 1 (.walk 2 (s.loading 3))) := by
+  have h : (run .fixed sharedHelper (init sharedHelper) [0, 0, 0, 0, 0, 0, 0, 0, 0, 0, 1, 1, 1, 1, 1, 1, 1]).any (fun s =>
+      decide (s.pc 1 = .walk 2 (some 3)) && decide (top s 1 = some 1)) = true := by decide
+  cases hr : run .fixed sharedHelper (init sharedHelper) [0, 0, 0, 0, 0, 0, 0, 0, 0, 0, 1, 1, 1, 1, 1, 1, 1] with
+  | none => simp [hr] at h
+  | some s =>
+    simp [hr] at h
+    have htop : top s 1 ≠ some 3 := by rw [h.2]; decide
+    exact ⟨s, steps_of_run hr, ⟨2, 3, h.1, htop⟩, .succ h.1 htop (.zero _)⟩
+
 /-- the hypothesis of `C06_deadlock_free`: reachable states with goroutines still running exist (the initial one) -/
 example : Reachable .fixed sharedHelper (init sharedHelper) ∧ ¬ Terminal sharedHelper (init sharedHelper) := by
   refine ⟨.refl _, fun h => ?_⟩
@@ -299,6 +451,16 @@ example : ∃ m, Reach threeCycle m ∧ Path threeCycle m m :=
 
 def threeCycleSchedule : List Tid :=
   [0, 0, 0, 0, 0, 0, 0, 0, 0, 0, 0, 0, 0, 0, 0, 0, 0, 0, 0, 0, 0, 0, 0, 0, 0, 0, 0, 0, 0, 0]
+
+/-- … and on the way the `loading` fields do contain a cycle (1 → 2 → 3 → 1), with the goroutine about to enter `wait` -/
+example : ∃ s, Reachable .fixed threeCycle s ∧ PtrCycle s ∧ s.pc 0 = .enter 1 := by
+  have h : (run .fixed threeCycle (init threeCycle) (threeCycleSchedule.take 18)).any (fun s =>
+      decide (ptrAt s 1 3 = some 1) && decide (s.pc 0 = .enter 1)) = true := by decide
+  cases hr : run .fixed threeCycle (init threeCycle) (threeCycleSchedule.take 18) with
+  | none => simp [hr] at h
+  | some s =>
+    simp [hr] at h
+    exact ⟨s, steps_of_run hr, ⟨1, 3, by decide, h.1⟩, h.2⟩
 
 /-- the repaired loader reaches a terminal state on it, with the cycle's modules failed -/
 example : ∃ s, Reachable .fixed threeCycle s ∧ Terminal threeCycle s ∧ s.loaded 1 = true ∧ s.result 1 = .cyc := by
